@@ -25,6 +25,22 @@ def reach(facts, roots):
     return seen
 
 
+def reach_above(facts, roots, stop_defs):
+    """instances reachable from roots without descending *into* instances whose definition is in stop_defs
+    (those are primitives: what they do internally is their own business); the stop instances are included"""
+    seen = set()
+    st = list(roots)
+    while st:
+        k = st.pop()
+        if k in seen or k not in facts.inst:
+            continue
+        seen.add(k)
+        if norm(facts.inst[k]["def"]) in stop_defs and k not in roots:
+            continue
+        st.extend(succs(facts, k))
+    return seen
+
+
 def sccs(facts, nodes):
     """Tarjan (iterative) over the sub-graph induced by `nodes`; returns list of SCCs (lists)"""
     index = {}
